@@ -257,6 +257,18 @@ def run(ctx, chk):
                                          "walks: a slot that receives a counted reference lies below the element count when the "
                                          "writing function returns (else a failed load leaks the pending element)")
     check_covered(chk, "C05.nothing-left-covered", prog, eff, cache_)
+    chk.rule("C05.gate", "MEMERROR for nesting is given exactly at the head that would open level L+1: the stack refuses at size L and "
+                         "nowhere below (shared with C19.gate)")
+    chk.rule("C05.refusal-justified", "creation_failed (reported as MEMERROR) is raised only where a constructor, the stack push or an "
+                                      "insertion failed (shared with C19)")
+    chk.rule("C05.no-bypass", "nothing is released through libc behind the installed allocator's back (it would stay allocated from the "
+                              "installed allocator's point of view)")
+    from props.c19 import check_gate, check_refusal_justified
+    L_ = int(prog.values["CBOR_MAX_STACK_SIZE"])
+    check_gate(chk, prog, eff, L_, "default(L=%d)" % L_, rule="C05.gate")
+    check_refusal_justified(chk, "C05.refusal-justified", prog, eff)
+    import rules as _r5
+    _r5.check_no_bypass(chk, "C05.no-bypass", prog)
     chk.exhaustive = True
 
 
